@@ -81,6 +81,11 @@ def patched_chain(handler, sentinel):
     return lambda: setattr(cell, 'cell_contents', inner)
 
 
+# callers: two ordinary users, the auth service account, and names that are related to it as strings (a proper substring, a
+# proper superstring) - string-membership slips in a guard show only for those
+USERNAMES = ['user1', 'user2', 'auth', 'au', 'author']
+
+
 def guards(R):
     fe, _ = bo.front_end()
     text = loader.read('batch/batch/front_end/front_end.py')
@@ -126,7 +131,7 @@ def guards(R):
                 if st == 'none':
                     ud = None
                 else:
-                    ud = {'username': glue.choose('ud_user', ['user1', 'user2', 'auth']), 'state': st,
+                    ud = {'username': glue.choose('ud_user', USERNAMES), 'state': st,
                           'is_developer': glue.choose('ud_dev', [0, 1]), 'hail_credentials_secret_name': 's',
                           'tokens_secret_name': 't', 'login_id': 'l', 'display_name': 'd'}
 
@@ -181,7 +186,7 @@ def guards(R):
             elif cls == 'admin':
                 need = z3.BoolVal(ud['is_developer'] == 1 or ud['username'] == 'auth')
             elif cls in ('member',):
-                need = member[ud['username']]
+                need = member.get(ud['username'], z3.BoolVal(False))
             else:
                 need = z3.BoolVal(True)   # 'user' and 'owner' (owner filter is checked separately on the full handler)
             s = z3.Solver()
